@@ -6,9 +6,9 @@ HOOKS = {
     "add_only": True,
 }
 ENGINES = [
-    {"name": "coq-model", "path": "/verif/coq", "serves_properties": ["C12"],
+    {"name": "coq-model", "path": "/verif/coq", "serves_properties": ["C01", "C12", "C13"],
      "kind_free_text": "hand-written Gallina model (Model/), proofs (Proofs/), property theorems (Props/), Coq 8.16.1"},
-    {"name": "correspondence", "path": "/verif/harness", "serves_properties": ["C12"],
+    {"name": "correspondence", "path": "/verif/harness", "serves_properties": ["C01", "C12", "C13"],
      "kind_free_text": "Go harness driving /repo (built with -tags verif) + extracted OCaml model and oracle (ocaml/) on the same cases"},
 ]
 NOTES = ("Every check: rebuild Coq closure of Props/<id>.v, parse Print Assumptions, build harness against /repo's working tree, "
@@ -22,6 +22,30 @@ def chk(pid, text, note, technique, design):
             "level_note": note, "technique": technique}
 
 CHECKS = [
+    chk("C01",
+        "Coq theorems C01_roundtrip / C01_bytes (Props/C01.v): for every compressing collector kind (base, batch, dynamic, streaming, "
+        "streaming-dynamic), every chunk size 1<=n<2^31 and every non-empty same-schema document sequence (any tree of sub-documents and "
+        "arrays over all 21 BSON types, values in their types' ranges, datetimes within Go's nanosecond range), all Adds succeed and reading "
+        "the emitted stream back yields exactly the inputs with non-metric leaves removed, in order, without error; the bytes decode to "
+        "exactly the emitted documents. Proved over a Gallina model of extraction, wrap-around deltas, zero-run/varint coding, BSON framing "
+        "and the reader; zlib is a parameter with inflate(deflate p)=p. The known finding D1 (timestamp seconds x1000) is proved as "
+        "C01_timestamp_refuted and excluded by hypothesis. Model tied to /repo on every run: collector histories and reader views are "
+        "compared byte-for-byte / document-for-document with the extracted model, and the extracted oracle c01_ok is applied to what "
+        "ReadStructuredMetrics returned.",
+        "Trusted: Coq kernel, extraction, glue, generator quality; zlib and birch's BSON (modelled, exercised on every case); "
+        "wall-clock _id values normalised. Timestamp leaves with non-zero seconds are a known finding.",
+        "Coq proof (structural induction over value trees, delta/RLE/varint inverses, per-kind chunking invariants) + differential correspondence",
+        "DESIGN.md section 8 C01"),
+    chk("C13",
+        "Seven Coq theorems (Props/C13.v) over the hdrhist model: value at rank k = representative of the exact k-th order statistic for "
+        "every multiset and rank; monotone in rank; Min/Max/mean numerator exact up to the range width; merge of equal geometry = recording "
+        "the union with nothing dropped, in either order; merge into another geometry conserves total+dropped; windowed merge = union of the "
+        "last n windows for every record/rotate schedule; Export/Import reproduce an equal histogram. Correspondence on quantile grids, merge "
+        "splits, window schedules, Export/Import and BSON/JSON round trips, with oracles that use sorted inputs and point functions only.",
+        "Trusted: as C12. The float step int64(q/100*n+0.5) is outside the model: the harness computes the rank with the same Go expression and "
+        "exactly in rationals and drops (and counts) rounding ties. BSON/JSON marshalling libraries are exercised, not modelled.",
+        "Coq proof (order statistics over the cumulative scan, ring invariant) + differential correspondence",
+        "DESIGN.md section 8 C13"),
     chk("C12",
         "Seven Coq theorems (Props/C12.v) over the Gallina model of hdrhist: for every configuration (0<=lo, 1<=hi<2^62, 1<=s<=5) and every "
         "0<=v<=hi the value is accepted, lies in its reported equivalence range, the range is no wider than max(unit, v*10^-s) and is exactly "
